@@ -7,8 +7,9 @@
    the encoded glyphs), lookup 2 of kind k2 over any triple t2; kinds
      single x->y | multiple x->y z | alternate x->{y,z} | ligature x y->z |
      chain (x followed by y: the OTHER lookup at index 0) | ctx2 (x y: the OTHER lookup at index 1);
-   at most one of the two is contextual.  Feature layouts A: ss01={1,2}  B: ss01={1} ss02={2}
-   C: ss01={1} (lookup 2 only reachable as a nested lookup)  D: ss01={2}.  One optional GPOS lookup.
+   at most one of the two is contextual; an optional lookup 3 of kind K3 over a triple of Triples3 (its rules feed
+   lookup 2 when that is reached only as a nested lookup: the closure needs a second pass).  Feature layouts A: ss01={1,2}  B: ss01={1} ss02={2}
+   C: ss01={1} (lookup 2 only reachable as a nested lookup)  D: ss01={2}  E: ss01={1,3}  F: ss01={1,2,3} (E, F with lookup 3).  One optional GPOS lookup.
    Requests: every set of characters x requested glyphs from ReqGlyphSel.                              *)
 EXTENDS Subset, Json
 
@@ -21,13 +22,15 @@ CONSTANTS K1, K2,          \* kinds of lookup 1 / lookup 2
           ReqGlyphSel,     \* subset of 0..2 (see ReqG)
           RetainSel, NotdefSel, ClosureSel,   \* subsets of BOOLEAN
           FeatOptSel,      \* subset of {"all","ss01","none"}
-          K                \* text length for ShapingPreserved
+          K,               \* text length for ShapingPreserved
+          K3               \* kinds of the optional lookup 3 ("none" = the font has two lookups)
 
 CanonTriples == {<<2, 3, 4>>, <<5, 2, 3>>, <<2, 5, 3>>, <<2, 3, 5>>}
 AllTriples == {t \in (2..5) \X (2..5) \X (2..5) : t[1] # t[2] /\ t[2] # t[3] /\ t[1] # t[3]}
 SomeTriples == {<<2, 3, 4>>, <<3, 4, 5>>, <<4, 5, 2>>, <<5, 2, 3>>, <<3, 2, 5>>, <<4, 3, 2>>}
 Triples1 == IF T1Sel = "all" THEN CanonTriples ELSE {<<2, 3, 4>>}
 Triples2 == IF T2Sel = "all" THEN AllTriples ELSE SomeTriples
+Triples3 == {<<3, 5, 4>>, <<4, 5, 3>>, <<3, 4, 5>>}
 IsCtx(k) == k \in {"chain", "ctx2"}
 
 Comps == << <<>>,
@@ -53,16 +56,18 @@ Fl(fm) == CASE fm = "A" -> << <<"DFLT", "dflt", "ss01", <<1, 2>>, FALSE>> >>
             [] fm = "B" -> << <<"DFLT", "dflt", "ss01", <<1>>, FALSE>>, <<"DFLT", "dflt", "ss02", <<2>>, FALSE>> >>
             [] fm = "C" -> << <<"DFLT", "dflt", "ss01", <<1>>, FALSE>> >>
             [] fm = "D" -> << <<"DFLT", "dflt", "ss01", <<2>>, FALSE>> >>
+            [] fm = "E" -> << <<"DFLT", "dflt", "ss01", <<1, 3>>, FALSE>> >>         \* lookup 2 only reachable as a nested lookup
+            [] fm = "F" -> << <<"DFLT", "dflt", "ss01", <<1, 2, 3>>, FALSE>> >>
 Gpos(gp, t) == CASE gp = "none" -> [lookups |-> <<>>, fl |-> <<>>]
                  [] gp = "pos1" -> [lookups |-> << [ty |-> "pos1", flag |-> 0, mfs |-> 0, st |-> << [m |-> << <<t[2], <<0, 0, 17, 0>>>> >>] >>] >>,
                                     fl |-> << <<"DFLT", "dflt", "ss01", <<1>>, FALSE>> >>]
                  [] gp = "pair" -> [lookups |-> << [ty |-> "pos2", flag |-> 0, mfs |-> 0,
                                                     st |-> << [f |-> 1, v2 |-> FALSE, p |-> << <<t[1], t[2], <<0, 0, -30, 0>>, <<0, 0, 0, 0>>>> >>] >>] >>,
                                     fl |-> << <<"DFLT", "dflt", "ss01", <<1>>, FALSE>> >>]
-MkFont(k1, t1, k2, t2, c, fm, gp) ==
+MkFont(k1, t1, k2, t2, k3, t3, c, fm, gp) ==
   [n |-> 5, glyf |-> TRUE, cmap |-> << <<1, 2>>, <<2, 3>>, <<3, 4>> >>, comp |-> Comps[c], math |-> <<>>, colr |-> <<>>,
    L |-> [gdef |-> [cls |-> <<>>, mac |-> <<>>, sets |-> <<>>],
-          gsub |-> [lookups |-> <<Lk(k1, t1, 2), Lk(k2, t2, 1)>>, fl |-> Fl(fm)],
+          gsub |-> [lookups |-> <<Lk(k1, t1, 2), Lk(k2, t2, 1)>> \o (IF k3 = "none" THEN <<>> ELSE <<Lk(k3, t3, 1)>>), fl |-> Fl(fm)],
           gpos |-> Gpos(gp, t2),
           adv |-> <<500, 510, 520, 530, 540>>]]
 FeatOpt(fo) == CASE fo = "all" -> <<"*">> [] fo = "ss01" -> <<"ss01">> [] OTHER -> <<>>
@@ -70,16 +75,19 @@ FeatOpt(fo) == CASE fo = "all" -> <<"*">> [] fo = "ss01" -> <<"ss01">> [] OTHER 
 Init ==
   \E k1 \in K1 : \E t1 \in Triples1 : \E k2 \in K2 : \E t2 \in Triples2 :
     /\ ~(IsCtx(k1) /\ IsCtx(k2))
-    /\ \E c \in CompSel : \E fm \in FeatModes : \E gp \in GposSel :
+    /\ \E k3 \in K3 : \E t3 \in (IF k3 = "none" THEN {<<2, 3, 4>>} ELSE Triples3) :
+       \E c \in CompSel : \E fm \in {f \in FeatModes : (f \in {"E", "F"}) <=> (k3 # "none")} : \E gp \in GposSel :
        \E us \in SUBSET {1, 2, 3} : \E rg \in ReqGlyphSel :
        \E rt \in RetainSel : \E nd \in NotdefSel : \E cl \in ClosureSel : \E fo \in FeatOptSel :
-         InitWith(MkFont(k1, t1, k2, t2, c, fm, gp),
+         InitWith(MkFont(k1, t1, k2, t2, k3, t3, c, fm, gp),
                   [unicodes |-> AscSeq(us, 1, 3), glyphs |-> ReqG[rg + 1]],
                   [retain |-> rt, notdef |-> nd, recommended |-> FALSE, closure |-> cl,
                    feats |-> FeatOpt(fo), scripts |-> <<"*">>])
 
 ShapingPreserved == (Done /\ opts.closure) => ShapingPreservedF(font, opts, out, order, K)
 (* generator: one line per distinct case *)
-Emit == (pc = "prune") => PrintT(<<"GEN", ToJson([font |-> font, req |-> req, opts |-> opts])>>)
+(* w = number of glyphs the GSUB closure has to add for this case (the harness samples the cases by it) *)
+Emit == (pc = "prune") => PrintT(<<"GEN", ToJson([font |-> font, req |-> req, opts |-> opts,
+                                                   w |-> Cardinality(MinGsub(font, req, opts) \ StartSet(font, req, opts))])>>)
 Spec == Init /\ [][Next]_vars
 =============================================================================
